@@ -27,8 +27,20 @@ type vC38Result struct {
 // one script on its own watcher; symlink = the watched name is a symlink (Kubernetes style) swapped atomically
 // k8s = the ConfigMap layout: conf.yml -> ..data/conf.yml, ..data -> ..v<N>/ (a directory), updated by renaming a new
 // ..data symlink over the old one: no event ever names the watched file, only its resolved path changes
-func vC38Run(dir string, symlink bool, k8s bool, ops []vC38Op) (res vC38Result, err error) {
+// dirlink = the directory of the configuration file is reached through a symlink (/etc/mediamtx -> /opt/mediamtx/etc)
+func vC38Run(dir string, symlink bool, k8s bool, dirlink bool, ops []vC38Op) (res vC38Result, err error) {
 	target := filepath.Join(dir, "conf.yml")
+	base := dir
+	if dirlink {
+		if err = os.Mkdir(filepath.Join(dir, "real"), 0o755); err != nil {
+			return
+		}
+		if err = os.Symlink("real", filepath.Join(dir, "link")); err != nil {
+			return
+		}
+		base = filepath.Join(dir, "link")
+		target = filepath.Join(base, "conf.yml")
+	}
 	gen := 0
 	realFile := func(g int) string { return filepath.Join(dir, fmt.Sprintf("data%d.yml", g)) }
 	verDir := func(g int) string { return filepath.Join(dir, fmt.Sprintf("..v%d", g)) }
@@ -118,7 +130,7 @@ func vC38Run(dir string, symlink bool, k8s bool, ops []vC38Op) (res vC38Result, 
 			f.Close()
 			hit = true
 		case "replace": // write a temporary file and rename it over the watched one: a single Create event
-			tmp := filepath.Join(dir, ".tmp-conf")
+			tmp := filepath.Join(base, ".tmp-conf")
 			os.WriteFile(tmp, []byte(fmt.Sprintf("a: %d\n", t)), 0o644) //nolint:errcheck
 			if e := os.Rename(tmp, target); e != nil {
 				return res, e
@@ -128,7 +140,7 @@ func vC38Run(dir string, symlink bool, k8s bool, ops []vC38Op) (res vC38Result, 
 			os.Remove(target) //nolint:errcheck
 			exists = false
 		case "create":
-			tmp := filepath.Join(dir, ".tmp-conf")
+			tmp := filepath.Join(base, ".tmp-conf")
 			os.WriteFile(tmp, []byte(fmt.Sprintf("a: %d\n", t)), 0o644) //nolint:errcheck
 			if e := os.Rename(tmp, target); e != nil {
 				return res, e
@@ -177,9 +189,11 @@ func vC38Run(dir string, symlink bool, k8s bool, ops []vC38Op) (res vC38Result, 
 	mu.Lock()
 	defer mu.Unlock()
 	res.coq = cqApp("Script", "1", cqList(evs), cqListOf(signals, cqZ), cqZ(lastChange), cqBool(exists))
-	res.desc = map[string]any{"symlink": symlink, "k8s": k8s, "ops": evsD, "signals_ms": signals, "last_change_ms": lastChange, "exists_at_end": exists}
+	res.desc = map[string]any{"symlink": symlink, "k8s": k8s, "dirlink": dirlink, "ops": evsD, "signals_ms": signals, "last_change_ms": lastChange, "exists_at_end": exists}
 	res.class = fmt.Sprintf("%d-signals", len(signals))
-	if k8s {
+	if dirlink {
+		res.class = "dirlink-" + res.class
+	} else if k8s {
 		res.class = "k8s-" + res.class
 	} else if symlink {
 		res.class = "symlink-" + res.class
@@ -200,6 +214,7 @@ func TestVerifC38(t *testing.T) {
 		dir     string
 		symlink bool
 		k8s     bool
+		dirlink bool
 		ops     []vC38Op
 	}
 	var jobs []job
@@ -232,7 +247,7 @@ func TestVerifC38(t *testing.T) {
 		}
 		d := filepath.Join(base, fmt.Sprintf("s%d", i))
 		os.MkdirAll(d, 0o755) //nolint:errcheck
-		jobs = append(jobs, job{d, i%6 == 2, i%6 == 5 || i%6 == 3, ops})
+		jobs = append(jobs, job{d, i%6 == 2, i%6 == 5 || i%6 == 3, i%6 == 4, ops})
 	}
 	results := make([]vC38Result, len(jobs))
 	errs := make([]error, len(jobs))
@@ -244,7 +259,7 @@ func TestVerifC38(t *testing.T) {
 			defer wg.Done()
 			sem <- struct{}{}
 			defer func() { <-sem }()
-			results[i], errs[i] = vC38Run(jobs[i].dir, jobs[i].symlink, jobs[i].k8s, jobs[i].ops)
+			results[i], errs[i] = vC38Run(jobs[i].dir, jobs[i].symlink, jobs[i].k8s, jobs[i].dirlink, jobs[i].ops)
 		}(i)
 	}
 	wg.Wait()
